@@ -36,6 +36,9 @@ func runC18(c *Ctx) {
 		return
 	}
 	info := pk.TypesInfo
+	// the queue and the executor are built with options.Apply(obj, opts, init): the init functions read
+	// what the options configured (maximum size, worker count)
+	checkOptionsApplyOrder(r, p)
 	// (3) locks + cond
 	checkGuards(r, p, "lock/guarded-by", []GuardRow{
 		{Pkg: pkg, Type: "Queue", Mutex: "heapMutex", Fields: []string{"heap"}, CH: map[string]LockMode{"removeElement": ModeW},
@@ -561,6 +564,42 @@ func checkTaskExecutor(r *Reporter, p *Prog) {
 	if fd == nil {
 		r.Unresolved("taskexec/reschedule-cancels", key, "method not found")
 		return
+	}
+	// every task of a TaskExecutor is scheduled through the identifier bookkeeping: the embedded
+	// executor's own scheduling methods are called from ExecuteAt only - a method that hands a task
+	// to the embedded executor directly leaves the identifier's pending task alone and its own task
+	// unknown to Cancel
+	{
+		var bypass []string
+		for _, m := range p.Methods(pkg, "TaskExecutor") {
+			if m.Body == nil || m == fd {
+				continue
+			}
+			self := recvObj(info, m)
+			ast.Inspect(m.Body, func(n ast.Node) bool {
+				cl, ok := n.(*ast.CallExpr)
+				if !ok {
+					return true
+				}
+				se, ok := ast.Unparen(cl.Fun).(*ast.SelectorExpr)
+				if !ok || (se.Sel.Name != "ExecuteAt" && se.Sel.Name != "ExecuteAfter") {
+					return true
+				}
+				// t.Executor.ExecuteX(...) - the embedded field selected explicitly - or a call on anything that
+				// is an Executor and not the TaskExecutor itself
+				if inner, isSel := ast.Unparen(se.X).(*ast.SelectorExpr); isSel && inner.Sel.Name == "Executor" && objOfIdent(info, inner.X) == self {
+					bypass = append(bypass, p.posStr(cl.Pos())+" in "+m.Name.Name)
+				} else if t := strings.TrimPrefix(typeName(info.TypeOf(se.X)), "*"); strings.HasSuffix(t, "timed.Executor") {
+					bypass = append(bypass, p.posStr(cl.Pos())+" in "+m.Name.Name)
+				}
+				return true
+			})
+		}
+		if len(bypass) > 0 {
+			r.Fail("taskexec/scheduled-through-bookkeeping", pkg+".TaskExecutor", p.posStr(fd.Pos()), "a task is handed to the embedded executor outside ExecuteAt ("+strings.Join(bypass, "; ")+"): the identifier's pending task is not replaced and the new task is not registered - two tasks per identifier, Cancel(id) hits the stale one")
+		} else {
+			r.Pass("taskexec/scheduled-through-bookkeeping", pkg+".TaskExecutor", p.posStr(fd.Pos()), "only ExecuteAt schedules on the embedded executor")
+		}
 	}
 	f := newFuncCFG(p, info, fd.Body, key)
 	isCancel := func(n ast.Node) bool {
